@@ -139,22 +139,32 @@ class SChars:
             r = bor_b(r, c == w)
         return r
 
+    def _stripped(self, c, chars):
+        if chars is None:
+            return self._is_ws(c)
+        if isinstance(chars, SChars):
+            if not chars.concrete():
+                raise Unsupported('strip(symbolic chars)')
+            chars = chars.text()
+        if isc(c):
+            return chr(c) in chars
+        r = False
+        for ch in chars:
+            r = bor_b(r, c == ord(ch))
+        return r
+
     def rstrip(self, chars=None):
-        if chars is not None:
-            raise Unsupported('strip(chars) of symbolic text')
         c = list(self.c)
         w = list(self.w)
-        while c and bool(self._is_ws(c[-1])):       # forks on symbolic characters
+        while c and bool(self._stripped(c[-1], chars)):       # forks on symbolic characters
             c.pop()
             w.pop()
         return SChars(c, w)
 
     def lstrip(self, chars=None):
-        if chars is not None:
-            raise Unsupported('strip(chars) of symbolic text')
         c = list(self.c)
         w = list(self.w)
-        while c and bool(self._is_ws(c[0])):
+        while c and bool(self._stripped(c[0], chars)):
             c.pop(0)
             w.pop(0)
         return SChars(c, w)
